@@ -4,7 +4,7 @@ use crate::engine::core::{Panicked, guard};
 use crate::engine::tape::Tape;
 use crate::model::data::*;
 use garnish_lang_compiler::build::{BuildData, build};
-use garnish_lang_compiler::lex::{LexerToken, lex};
+use garnish_lang_compiler::lex::{LexerToken, TokenType, lex};
 use garnish_lang_compiler::parse::{ParseNode, ParseResult, parse};
 use garnish_lang_runtime::{SimpleRuntimeState, execute_current_instruction};
 
@@ -230,4 +230,32 @@ pub fn char_soup(t: &mut Tape, max: usize) -> String {
 
 pub fn simple_for_build() -> garnish_lang_simple_data::SimpleGarnishData {
     new_simple()
+}
+
+/// coarse token class used to key findings
+pub fn token_class(t: TokenType) -> &'static str {
+    match t {
+        TokenType::Whitespace => "ws",
+        TokenType::Subexpression => "blank-line",
+        TokenType::ExpressionSeparator => "semicolon",
+        TokenType::ExpressionTerminator => "terminator",
+        TokenType::Annotation | TokenType::LineAnnotation => "annotation",
+        TokenType::Number | TokenType::CharList | TokenType::ByteList | TokenType::Symbol | TokenType::UnitLiteral | TokenType::Value | TokenType::True | TokenType::False => "value",
+        TokenType::Identifier => "identifier",
+        TokenType::StartGroup => "(",
+        TokenType::EndGroup => ")",
+        TokenType::StartExpression => "{",
+        TokenType::EndExpression => "}",
+        TokenType::StartSideEffect => "[",
+        TokenType::EndSideEffect => "]",
+        TokenType::Comma => "comma",
+        TokenType::InfixIdentifier => "infix-id",
+        TokenType::PrefixIdentifier => "prefix-id",
+        TokenType::SuffixIdentifier => "suffix-id",
+        TokenType::Pair => "pair",
+        TokenType::EmptyApply | TokenType::RightInternal | TokenType::LengthInternal => "suffix",
+        TokenType::AbsoluteValue | TokenType::Opposite | TokenType::BitwiseNot | TokenType::Not | TokenType::Tis | TokenType::TypeOf | TokenType::LeftInternal | TokenType::Reapply => "prefix",
+        _ => "binary",
+    }
+
 }
